@@ -59,6 +59,11 @@ fn cfg_json(c: &Cfg) -> Value {
 }
 
 pub fn replay(v: &Value) -> i32 {
+    if let Some(l) = v["long_token"].as_u64() {
+        let (_, max) = long_token_run(l as usize, v["v6"].as_bool().unwrap_or(false), None);
+        println!("token of {l} bytes -> largest datagram emitted by the node: {max} bytes");
+        return if max > 1500 { 1 } else { 0 };
+    }
     let c = &v["cfg"];
     let cfg = Cfg { v6_peers: c["v6_peers"].as_bool().unwrap_or(false), node_v6: c["node_v6"].as_bool().unwrap_or(false), k: c["k"].as_u64().unwrap_or(0) as usize, table: c["table"].as_u64().unwrap_or(0) as usize, all_tid_lengths: c["all_tid_lengths"].as_bool().unwrap_or(false) };
     let (res, f, ncfg) = run_one(&cfg, v["rng_seed"].as_u64().unwrap_or(1));
@@ -76,8 +81,56 @@ pub fn replay(v: &Value) -> i32 {
     code
 }
 
+/// A searching node among responders that hand out tokens of `token_len` bytes (their own replies
+/// stay below 1500 bytes): the node's announce_peer queries must fit 1500 bytes too.
+pub fn long_token_run(token_len: usize, v6: bool, port: Option<u16>) -> (sim::RunResult, usize) {
+    use crate::sim::peers::Responder;
+    let mut sc = sim::Scenario::new("long-token");
+    let saddr = super::c02::searcher_addr(v6);
+    let ids: Vec<[u8; 20]> = (0..3u8).map(|i| super::c02::prefix_id(i, 3, 0x44)).collect();
+    let universe: std::sync::Arc<Vec<([u8; 20], std::net::SocketAddr)>> = std::sync::Arc::new(ids.iter().enumerate().map(|(i, id)| (*id, super::c02::resp_addr(i, v6))).collect());
+    let mut peers: Vec<Box<dyn sim::Peer>> = vec![];
+    for (i, id) in ids.iter().enumerate() {
+        let mut r = Responder::new(super::c02::resp_addr(i, v6), *id, universe.clone());
+        r.token = vec![b'A' + i as u8; token_len];
+        // no node lists: leaves the most room for the token inside a reply of <= 1500 bytes
+        r.node_list = crate::sim::peers::NodeList::None;
+        r.find_node_list = Some(crate::sim::peers::NodeList::Closest8);
+        peers.push(Box::new(r));
+    }
+    sc.nodes.push(sim::NodeSpec { addr: saddr, id: Some(btdht::InfoHash::from([0xf7u8; 20])), read_only: true, announce_port: port, contacts: vec![super::c02::resp_addr(0, v6)], routers: vec![], start_ms: 0 });
+    sc.actions.push((When::At(5_000), Action::Search { node: 0, info_hash: btdht::InfoHash::from([0x21u8; 20]), announce: true, tag: "search".into() }));
+    sc.stop_after = vec!["search".into()];
+    sc.linger_ms = 100;
+    sc.horizon_ms = 60_000;
+    let res = sim::run(&sc, peers, &mut sim::DefaultChooser);
+    let max = res.wire.iter().filter(|d| d.from_real).map(|d| d.bytes.len()).max().unwrap_or(0);
+    (res, max)
+}
+
 pub fn run(tier: Tier) -> Report {
     let mut rep = Report::new("C17", "model_checking", tier);
+    // queries: announce_peer echoes the token the remote node handed out
+    {
+        let lens: Vec<usize> = tier.pick(vec![0, 20, 255, 1000, 1300, 1350, 1380, 1400, 1420, 1430], (0..=1440).step_by(10).collect());
+        let mut worst = 0usize;
+        for &l in &lens {
+            for (v6, port) in [(false, None), (true, Some(65535u16))] {
+                let (res, max) = long_token_run(l, v6, port);
+                rep.add("transitions", res.wire.len() as u64);
+                rep.add("long_token_runs", 1);
+                worst = worst.max(max);
+                if max > 1500 {
+                    rep.violation(
+                        "oversized-datagram kind=announce_peer-echoing-a-long-token",
+                        format!("a responder hands out a {l}-byte token (its own reply fits 1500 bytes); the node's announce_peer to it is {max} bytes"),
+                        json!({"engine":"E1","check":"C17","long_token":l,"v6":v6}),
+                    );
+                }
+            }
+        }
+        rep.set("largest_query_with_remote_token", worst as u64);
+    }
     let seed = 1 + seed();
     let ks: Vec<usize> = match tier {
         Tier::Quick => {
